@@ -103,6 +103,12 @@ def gen_cases(ctx):
                               "table": {"names": ["name", "code"], "nrow": 4,
                                         "cols": {"name": ["Anna", "Bo", "Cy", "Di"], "code": ["FI", "SE", "XX", "FI"]}},
                               "restrict": [], "cast": {}, "encoding": "utf-8", "sep": ",", "header": True})
+    # a GeoJSON file one of whose properties holds an array / an object: `GeoJSON.read` validates the FILE before anything is
+    # selected (`_check_raw_data`), so whether the file is accepted cannot depend on which columns are asked for
+    for vals in ([["x", "y"], [], ["z"]], [{"k": 1}, {"k": 2}, {}]):
+        for restrict in (["name"], ["n", "name"], ["tags"], []):
+            cases.append({"op": "read", "reader": "geojson", "table": {"names": ["name", "tags", "n"], "nrow": 3, "cols": {"name": ["a", "b", "c"], "tags": vals, "n": [1, 2, 3]}},
+                          "restrict": restrict, "cast": {}, "ragged": False, "encoding": "utf-8", "sep": ",", "header": True})
     # Parquet files written by pandas carry pandas' own schema metadata (and, with a labelled index, the index as a column)
     for index in ("default", "labelled"):
         for restrict in (["temp"], ["temp", "hum"], []):
@@ -390,7 +396,10 @@ def judge(ctx, case, obs, mouts):
     nontrivial = 0 < len(kept) < len(file_names) and [x for x in restrict if x in file_names] != kept
     al, cl, allr = obs["alias"], obs["class"], obs["all"]
     if "__err__" in allr:
-        # the unrestricted read itself fails (e.g. an encoding the format cannot carry): not this property's business
+        # the unrestricted read itself fails (e.g. an encoding the format cannot carry): not this property's business —
+        # except that a GeoJSON file is validated as a whole before any selection: a restriction cannot make it readable
+        if reader == "geojson" and "__err__" not in cl:
+            ctx.violation("oracle", "restricted-read-accepts:geojson", f"GeoJSON.read(columns={restrict}) returned {str(cl)[:150]} for a file the unrestricted read rejects ({allr['__err__'][:100]})", case, obs)
         ctx.count("unreadable")
         ctx.case_done(case, False)
         return
